@@ -290,3 +290,54 @@ impl Lattice {
         Ok(())
     }
 }
+
+/// Read-only view of one lattice node, for external verification harnesses.
+#[cfg(feature = "verif")]
+#[derive(Clone, Debug, PartialEq, Eq)]
+pub struct VerifNode {
+    pub begin: usize,
+    pub end: usize,
+    pub left_id: u16,
+    pub right_id: u16,
+    pub cost: i16,
+    pub word_id: WordId,
+    /// cumulative path cost stored for the node (i32::MAX = not connected to BOS)
+    pub total_cost: i32,
+    /// back pointer: (end boundary, index inside that boundary) of the best previous node
+    pub prev: (u16, u16),
+}
+
+#[cfg(feature = "verif")]
+impl Lattice {
+    /// Number of boundaries (codepoints + 1) of the current lattice
+    pub fn verif_len(&self) -> usize {
+        self.size
+    }
+
+    /// All nodes that end at the given boundary, in insertion order
+    pub fn verif_nodes(&self, end: usize) -> Vec<VerifNode> {
+        let mut res = Vec::new();
+        if end == 0 || end >= self.size {
+            return res;
+        }
+        for (i, n) in self.ends_full[end].iter().enumerate() {
+            let idx = self.indices[end][i];
+            res.push(VerifNode {
+                begin: n.begin(),
+                end: n.end(),
+                left_id: n.left_id(),
+                right_id: n.right_id(),
+                cost: n.cost(),
+                word_id: n.word_id(),
+                total_cost: self.ends[end][i].total_cost,
+                prev: (idx.end(), idx.index()),
+            });
+        }
+        res
+    }
+
+    /// EOS connection: (back pointer, total cost)
+    pub fn verif_eos(&self) -> Option<((u16, u16), i32)> {
+        self.eos.map(|(idx, c)| ((idx.end(), idx.index()), c))
+    }
+}
